@@ -13,7 +13,25 @@ macro "q_close" : tactic => `(tactic| (
     | done
     | grind [upd, Pc.role, Pc.afterEmpty, claimPc, dispatchPc, PopCtx.onEmpty, PopCtx.role, PopCtx.queue, afterLdRunS,
         afterLdRunB, afterJoinW, afterSubmit, afterSize, slotAvailable, role_chk, popctx_role,
-        Q.setSt, Q.take, Q.ready, Q.stAt, Q.slotFree]))
+        Q.setSt, Q.take, Q.ready, Q.stAt, Q.slotFree, Pc.pubTicket, Item.isTask, Pc.plain]))
+
+/-- Q4 at the owner's own queue: nothing is being published there, so "not ready" means "empty" -/
+theorem not_ready_empty {c : Cfg} {s : State} (J : Inv2 c s) (k w : Nat) (how : s.owner k = some w)
+    (hpt : (s.pc w).pubTicket = none) (hnr : (s.l k).ready (s.l k).popIdx = false) :
+    (s.l k).cells.length ≤ (s.l k).popIdx := by
+  apply Nat.le_of_not_lt
+  intro hlt
+  have hget : (s.l k).cells[(s.l k).popIdx]? = some ((s.l k).cells[(s.l k).popIdx]) := by simp [hlt]
+  have h1 := J.l1 k _ _ hget
+  have hnf : ((s.l k).cells[(s.l k).popIdx]).st ≠ .free := by
+    intro hf; have := h1.mp hf; omega
+  have hnfull : ((s.l k).cells[(s.l k).popIdx]).st ≠ .full := by
+    intro hf; simp [Q.ready, hget, hf] at hnr
+  have hres : (s.l k).stAt (s.l k).popIdx = some .reserved := by
+    simp only [Q.stAt, hget, Option.map_some]
+    cases hst : ((s.l k).cells[(s.l k).popIdx]).st <;> simp_all
+  have := J.l2 k _ w hres how
+  rw [hpt] at this; cases this
 
 section
 variable {c : Cfg} {s s' : State} {t : Nat} {lb : Lbl}
@@ -23,9 +41,24 @@ theorem Inv2.step_l0 (I : Inv1 c s) (J : Inv2 c s) (h : StepCase c s t lb s') :
     ∀ k, (s'.l k).popIdx ≤ (s'.l k).cells.length := by
   intro k
   have l0 := J.l0
-  clear I J
-  cases h <;> try q_close
-  all_goals (trace_state; sorry)
+  have hwf := I.wf t
+  have J0 := J
+  have hd := plain_dispatchPc
+  have hoe := plain_onEmpty
+  have hmc := plain_markChain c
+  have has := plain_afterStore c
+  have hae1 := afterEmpty_dispatchPc
+  have hae2 := afterEmpty_onEmpty
+  have hae3 := afterEmpty_markChain c
+  have hae4 := afterEmpty_afterStore c
+  have hk : ∀ p k, s.pc t = .gPub p k → k.plain ∧ k.afterEmpty = false := by
+    intro p k hp; rw [hp] at hwf; exact ⟨plain_cont c none k hwf, afterEmpty_cont c none k hwf⟩
+  clear I J hwf
+  cases h
+  case popClaim ctx i k0 nr cl hpc hq hi hcell hfull =>
+    clear J0
+    cases ctx <;> cases cl.item <;> q_close
+  all_goals (clear J0; try q_close)
 
 set_option maxHeartbeats 2000000 in
 theorem Inv2.step_l1 (I : Inv1 c s) (J : Inv2 c s) (h : StepCase c s t lb s') :
@@ -33,24 +66,90 @@ theorem Inv2.step_l1 (I : Inv1 c s) (J : Inv2 c s) (h : StepCase c s t lb s') :
   intro k i cl hc
   have l0 := J.l0
   have l1 := J.l1
-  clear I J
-  cases h <;> try q_close
-  all_goals (trace_state; sorry)
+  have hwf := I.wf t
+  have J0 := J
+  have hd := plain_dispatchPc
+  have hoe := plain_onEmpty
+  have hmc := plain_markChain c
+  have has := plain_afterStore c
+  have hae1 := afterEmpty_dispatchPc
+  have hae2 := afterEmpty_onEmpty
+  have hae3 := afterEmpty_markChain c
+  have hae4 := afterEmpty_afterStore c
+  have hk : ∀ p k, s.pc t = .gPub p k → k.plain ∧ k.afterEmpty = false := by
+    intro p k hp; rw [hp] at hwf; exact ⟨plain_cont c none k hwf, afterEmpty_cont c none k hwf⟩
+  clear I J hwf
+  cases h
+  case popClaim ctx i k0 nr cl hpc hq hi hcell hfull =>
+    clear J0
+    cases ctx <;> cases cl.item <;> q_close
+  all_goals (clear J0; try q_close)
 
 set_option maxHeartbeats 2000000 in
 theorem Inv2.step_l2 (I : Inv1 c s) (J : Inv2 c s) (h : StepCase c s t lb s') :
-    ∀ (k i : Nat) (cl : Cell), (s'.l k).cells[i]? = some cl → cl.st = .reserved → ∃ w id cid, s'.owner k = some w ∧ s'.pc w = .rLPub id cid i := by
-  intro k i cl hc hres
+    ∀ (k i w : Nat), (s'.l k).stAt i = some .reserved → s'.owner k = some w → (s'.pc w).pubTicket = some i := by
+  intro k i w hres how
   have l0 := J.l0
   have l1 := J.l1
   have l2 := J.l2
+  have l3 := J.l3
+  have l4 := J.l4
   have l5 := J.l5
+  have l7 := J.l7
   have o1 := I.o1
   have o2 := I.o2
   have o3 := I.o3
-  clear I J
-  cases h <;> try q_close
-  all_goals (trace_state; sorry)
+  have hwf := I.wf t
+  have J0 := J
+  have hd := plain_dispatchPc
+  have hoe := plain_onEmpty
+  have hmc := plain_markChain c
+  have has := plain_afterStore c
+  have hae1 := afterEmpty_dispatchPc
+  have hae2 := afterEmpty_onEmpty
+  have hae3 := afterEmpty_markChain c
+  have hae4 := afterEmpty_afterStore c
+  have hk : ∀ p k, s.pc t = .gPub p k → k.plain ∧ k.afterEmpty = false := by
+    intro p k hp; rw [hp] at hwf; exact ⟨plain_cont c none k hwf, afterEmpty_cont c none k hwf⟩
+  clear I J hwf
+  cases h
+  case popClaim ctx i k0 nr cl hpc hq hi hcell hfull =>
+    have hit := (isTask_iff cl.item).mp (l4 k0 i cl hcell)
+    clear J0
+    cases ctx <;> (try obtain ⟨idx, hidx⟩ := hit) <;> (try rw [hidx]) <;> q_close
+  case rLSt id cid p k0 hpc hown hp =>
+    have hrole : (s.pc t).role = .worker := by rw [hpc]; rfl
+    have hto := o2 t k0 hown hrole
+    have hpt : (s.pc t).pubTicket = none := by rw [hpc]; rfl
+    clear J0
+    simp only [exec_proj, upd_same, upd_apply] at *
+    by_cases hk : k = k0
+    · subst hk
+      rw [hto] at how; cases how
+      simp only [if_true, Pc.pubTicket] at hres ⊢
+      by_cases hi : i = (s.l k).cells.length
+      · rw [hi, hp]
+      · exfalso
+        have : (s.l k).stAt i = some .reserved := by
+          simp only [Q.stAt, Q.take] at hres ⊢
+          rw [List.getElem?_append] at hres
+          split at hres
+          · exact hres
+          · rename_i hlt
+            have : i - (s.l k).cells.length ≠ 0 := by omega
+            cases hd : i - (s.l k).cells.length with
+            | zero => exact absurd hd this
+            | succ n => simp [hd] at hres
+        have := l2 k i t this hto
+        rw [hpt] at this; cases this
+    · simp only [hk, if_false] at hres
+      have h2 := l2 k i w hres how
+      have hwt : w ≠ t := by
+        intro hwt; subst hwt
+        have := o1 k w how
+        rw [hown] at this; cases this; exact hk rfl
+      simp only [hwt, if_false]; exact h2
+  all_goals (clear J0; try q_close)
 
 set_option maxHeartbeats 2000000 in
 theorem Inv2.step_l3 (I : Inv1 c s) (J : Inv2 c s) (h : StepCase c s t lb s') :
@@ -60,18 +159,49 @@ theorem Inv2.step_l3 (I : Inv1 c s) (J : Inv2 c s) (h : StepCase c s t lb s') :
   have o1 := I.o1
   have o2 := I.o2
   have o3 := I.o3
-  clear I J
-  cases h <;> try q_close
-  all_goals (trace_state; sorry)
+  have hwf := I.wf t
+  have J0 := J
+  have hd := plain_dispatchPc
+  have hoe := plain_onEmpty
+  have hmc := plain_markChain c
+  have has := plain_afterStore c
+  have hae1 := afterEmpty_dispatchPc
+  have hae2 := afterEmpty_onEmpty
+  have hae3 := afterEmpty_markChain c
+  have hae4 := afterEmpty_afterStore c
+  have hk : ∀ p k, s.pc t = .gPub p k → k.plain ∧ k.afterEmpty = false := by
+    intro p k hp; rw [hp] at hwf; exact ⟨plain_cont c none k hwf, afterEmpty_cont c none k hwf⟩
+  clear I J hwf
+  cases h
+  case popClaim ctx i k0 nr cl hpc hq hi hcell hfull =>
+    clear J0
+    cases ctx <;> cases cl.item <;> q_close
+  all_goals (clear J0; try q_close)
 
 set_option maxHeartbeats 2000000 in
 theorem Inv2.step_l4 (I : Inv1 c s) (J : Inv2 c s) (h : StepCase c s t lb s') :
-    ∀ (k i : Nat) (cl : Cell), (s'.l k).cells[i]? = some cl → ∃ id, cl.item = .task id := by
+    ∀ (k i : Nat) (cl : Cell), (s'.l k).cells[i]? = some cl → cl.item.isTask = true := by
   intro k i cl hc
   have l4 := J.l4
-  clear I J
-  cases h <;> try q_close
-  all_goals (trace_state; sorry)
+  have hwf := I.wf t
+  have J0 := J
+  have hd := plain_dispatchPc
+  have hoe := plain_onEmpty
+  have hmc := plain_markChain c
+  have has := plain_afterStore c
+  have hae1 := afterEmpty_dispatchPc
+  have hae2 := afterEmpty_onEmpty
+  have hae3 := afterEmpty_markChain c
+  have hae4 := afterEmpty_afterStore c
+  have hk : ∀ p k, s.pc t = .gPub p k → k.plain ∧ k.afterEmpty = false := by
+    intro p k hp; rw [hp] at hwf; exact ⟨plain_cont c none k hwf, afterEmpty_cont c none k hwf⟩
+  clear I J hwf
+  cases h
+  case popClaim ctx i k0 nr cl hpc hq hi hcell hfull =>
+    have hit := (isTask_iff cl.item).mp (l4 k0 i cl hcell)
+    clear J0
+    cases ctx <;> (try obtain ⟨idx, hidx⟩ := hit) <;> (try rw [hidx]) <;> q_close
+  all_goals (clear J0; try q_close)
 
 set_option maxHeartbeats 2000000 in
 theorem Inv2.step_l5 (I : Inv1 c s) (J : Inv2 c s) (h : StepCase c s t lb s') :
@@ -79,13 +209,30 @@ theorem Inv2.step_l5 (I : Inv1 c s) (J : Inv2 c s) (h : StepCase c s t lb s') :
   intro w id cid p k hp ho
   have l0 := J.l0
   have l1 := J.l1
+  have l4 := J.l4
   have l5 := J.l5
   have o1 := I.o1
   have o2 := I.o2
   have o3 := I.o3
-  clear I J
-  cases h <;> try q_close
-  all_goals (trace_state; sorry)
+  have hwf := I.wf t
+  have J0 := J
+  have hd := plain_dispatchPc
+  have hoe := plain_onEmpty
+  have hmc := plain_markChain c
+  have has := plain_afterStore c
+  have hae1 := afterEmpty_dispatchPc
+  have hae2 := afterEmpty_onEmpty
+  have hae3 := afterEmpty_markChain c
+  have hae4 := afterEmpty_afterStore c
+  have hk : ∀ p k, s.pc t = .gPub p k → k.plain ∧ k.afterEmpty = false := by
+    intro p k hp; rw [hp] at hwf; exact ⟨plain_cont c none k hwf, afterEmpty_cont c none k hwf⟩
+  clear I J hwf
+  cases h
+  case popClaim ctx i k0 nr cl hpc hq hi hcell hfull =>
+    have hit := (isTask_iff cl.item).mp (l4 k0 i cl hcell)
+    clear J0
+    cases ctx <;> (try obtain ⟨idx, hidx⟩ := hit) <;> (try rw [hidx]) <;> q_close
+  all_goals (clear J0; try q_close)
 
 set_option maxHeartbeats 2000000 in
 theorem Inv2.step_l6 (I : Inv1 c s) (J : Inv2 c s) (h : StepCase c s t lb s') :
@@ -94,28 +241,124 @@ theorem Inv2.step_l6 (I : Inv1 c s) (J : Inv2 c s) (h : StepCase c s t lb s') :
   have l0 := J.l0
   have l1 := J.l1
   have l2 := J.l2
+  have l3 := J.l3
+  have l4 := J.l4
   have l6 := J.l6
   have l7 := J.l7
+  have l8 := J.l8
   have o1 := I.o1
   have o2 := I.o2
   have o3 := I.o3
-  clear I J
-  cases h <;> try q_close
-  all_goals (trace_state; sorry)
+  have hwf := I.wf t
+  have J0 := J
+  have hd := plain_dispatchPc
+  have hoe := plain_onEmpty
+  have hmc := plain_markChain c
+  have has := plain_afterStore c
+  have hae1 := afterEmpty_dispatchPc
+  have hae2 := afterEmpty_onEmpty
+  have hae3 := afterEmpty_markChain c
+  have hae4 := afterEmpty_afterStore c
+  have hk : ∀ p k, s.pc t = .gPub p k → k.plain ∧ k.afterEmpty = false := by
+    intro p k hp; rw [hp] at hwf; exact ⟨plain_cont c none k hwf, afterEmpty_cont c none k hwf⟩
+  clear I J hwf
+  cases h
+  case popClaim ctx i k0 nr cl hpc hq hi hcell hfull =>
+    have hit := (isTask_iff cl.item).mp (l4 k0 i cl hcell)
+    clear J0
+    cases ctx <;> (try obtain ⟨idx, hidx⟩ := hit) <;> (try rw [hidx]) <;> q_close
+  case wTop k0 hpc hown =>
+    have hrole : (s.pc t).role = .worker := by rw [hpc]; rfl
+    have hto := o2 t k0 hown hrole
+    have hpt : (s.pc t).pubTicket = none := by rw [hpc]; rfl
+    have hne := not_ready_empty J0 k0 t hto hpt
+    q_close
+  case popReload ctx i0 k0 nr hpc hq hne0 =>
+    cases ctx
+    case own =>
+      have hrole : (s.pc t).role = .worker := by rw [hpc]; rfl
+      have hto := o2 t k0 hq hrole
+      have hpt : (s.pc t).pubTicket = none := by rw [hpc]; rfl
+      have hne := not_ready_empty J0 k0 t hto hpt
+      q_close
+    all_goals q_close
+  case popCasFail ctx i0 k0 nr hpc hq =>
+    cases ctx
+    case own =>
+      have hrole : (s.pc t).role = .worker := by rw [hpc]; rfl
+      have hto := o2 t k0 hq hrole
+      have hpt : (s.pc t).pubTicket = none := by rw [hpc]; rfl
+      have hne := not_ready_empty J0 k0 t hto hpt
+      q_close
+    all_goals q_close
+  all_goals (clear J0; try q_close)
 
 set_option maxHeartbeats 2000000 in
 theorem Inv2.step_l7 (I : Inv1 c s) (J : Inv2 c s) (h : StepCase c s t lb s') :
     ∀ w k, (s'.pc w).afterEmpty = true → s'.owner k = some w → (s'.l k).cells.length ≤ (s'.l k).popIdx := by
   intro w k ha ho
   have l0 := J.l0
+  have l4 := J.l4
   have l6 := J.l6
   have l7 := J.l7
   have o1 := I.o1
   have o2 := I.o2
   have o3 := I.o3
-  clear I J
-  cases h <;> try q_close
-  all_goals (trace_state; sorry)
+  have o5 := I.o5
+  have r4 := I.r4
+  have r5 := I.r5
+  have hwf := I.wf t
+  have J0 := J
+  have hd := plain_dispatchPc
+  have hoe := plain_onEmpty
+  have hmc := plain_markChain c
+  have has := plain_afterStore c
+  have hae1 := afterEmpty_dispatchPc
+  have hae2 := afterEmpty_onEmpty
+  have hae3 := afterEmpty_markChain c
+  have hae4 := afterEmpty_afterStore c
+  have hk : ∀ p k, s.pc t = .gPub p k → k.plain ∧ k.afterEmpty = false := by
+    intro p k hp; rw [hp] at hwf; exact ⟨plain_cont c none k hwf, afterEmpty_cont c none k hwf⟩
+  clear I J hwf
+  cases h
+  case popClaim ctx i k0 nr cl hpc hq hi hcell hfull =>
+    have hit := (isTask_iff cl.item).mp (l4 k0 i cl hcell)
+    clear J0
+    cases ctx <;> (try obtain ⟨idx, hidx⟩ := hit) <;> (try rw [hidx]) <;> q_close
+  case popEmpty ctx i0 k0 hpc hq hi0 =>
+    cases ctx <;> q_close
+  case popReload ctx i0 k0 nr hpc hq hne0 =>
+    cases ctx <;> q_close
+  case popCasFail ctx i0 k0 nr hpc hq =>
+    cases ctx <;> q_close
+  case exitIdle hpc =>
+    have : t ∉ c.workers := by intro hw; rcases r4 t hw with h1 | h1 <;> simp [hpc, Pc.role] at h1
+    q_close
+  case bExit hpc =>
+    have : t ∉ c.workers := by intro hw; rcases r4 t hw with h1 | h1 <;> simp [hpc, Pc.role] at h1
+    q_close
+  all_goals (clear J0; try q_close)
+
+set_option maxHeartbeats 2000000 in
+theorem Inv2.step_l8 (I : Inv1 c s) (J : Inv2 c s) (h : StepCase c s t lb s') :
+    ∀ w k ctx i nr, s'.pc w = .chk ctx i nr → ctx.queue s' w = some k → i ≤ (s'.l k).popIdx := by
+  intro w k ctx i nr hp hq
+  have l8 := J.l8
+  have l0 := J.l0
+  have o3 := I.o3
+  have hwf := I.wf t
+  have hd := plain_dispatchPc
+  have hoe := plain_onEmpty
+  have hmc := plain_markChain c
+  have has := plain_afterStore c
+  have hcl := plain_claimPc
+  have hk : ∀ p k, s.pc t = .gPub p k → k.plain := by
+    intro p k hp; rw [hp] at hwf; exact plain_cont c none k hwf
+  clear I J hwf
+  cases h
+  case popClaim ctx0 i0 k0 nr0 cl hpc hq0 hi hcell hfull =>
+    cases ctx <;> simp only [PopCtx.queue] at hq <;> cases ctx0 <;> q_close
+  all_goals (cases ctx <;> simp only [PopCtx.queue] at hq <;> try q_close)
 
 set_option maxHeartbeats 2000000 in
 theorem Inv2.step_g0 (I : Inv1 c s) (J : Inv2 c s) (h : StepCase c s t lb s') :
@@ -123,39 +366,78 @@ theorem Inv2.step_g0 (I : Inv1 c s) (J : Inv2 c s) (h : StepCase c s t lb s') :
   intro i cl hc hi
   have g0 := J.g0
   have g2 := J.g2
-  clear I J
-  cases h <;> try q_close
-  all_goals (trace_state; sorry)
-
-set_option maxHeartbeats 2000000 in
-theorem Inv2.step_g1 (I : Inv1 c s) (J : Inv2 c s) (h : StepCase c s t lb s') :
-    ∀ i : Nat, i < s'.g.popIdx → (∃ cl : Cell, s'.g.cells[i]? = some cl ∧ cl.st = .free) ∨ ∃ w, s'.pc w = .wGWait i := by
-  intro i hi
-  have g1 := J.g1
-  have g2 := J.g2
-  clear I J
-  cases h <;> try q_close
-  all_goals (trace_state; sorry)
+  have hwf := I.wf t
+  have J0 := J
+  have hd := plain_dispatchPc
+  have hoe := plain_onEmpty
+  have hmc := plain_markChain c
+  have has := plain_afterStore c
+  have hae1 := afterEmpty_dispatchPc
+  have hae2 := afterEmpty_onEmpty
+  have hae3 := afterEmpty_markChain c
+  have hae4 := afterEmpty_afterStore c
+  have hk : ∀ p k, s.pc t = .gPub p k → k.plain ∧ k.afterEmpty = false := by
+    intro p k hp; rw [hp] at hwf; exact ⟨plain_cont c none k hwf, afterEmpty_cont c none k hwf⟩
+  clear I J hwf
+  cases h
+  case popClaim ctx i k0 nr cl hpc hq hi hcell hfull =>
+    clear J0
+    cases ctx <;> cases cl.item <;> q_close
+  all_goals (clear J0; try q_close)
 
 set_option maxHeartbeats 2000000 in
 theorem Inv2.step_g2 (I : Inv1 c s) (J : Inv2 c s) (h : StepCase c s t lb s') :
     ∀ w i, s'.pc w = .wGWait i → i < s'.g.popIdx := by
   intro w i hp
   have g2 := J.g2
-  clear I J
-  cases h <;> try q_close
-  all_goals (trace_state; sorry)
+  have l4 := J.l4
+  have hwf := I.wf t
+  have J0 := J
+  have hd := plain_dispatchPc
+  have hoe := plain_onEmpty
+  have hmc := plain_markChain c
+  have has := plain_afterStore c
+  have hae1 := afterEmpty_dispatchPc
+  have hae2 := afterEmpty_onEmpty
+  have hae3 := afterEmpty_markChain c
+  have hae4 := afterEmpty_afterStore c
+  have hk : ∀ p k, s.pc t = .gPub p k → k.plain ∧ k.afterEmpty = false := by
+    intro p k hp; rw [hp] at hwf; exact ⟨plain_cont c none k hwf, afterEmpty_cont c none k hwf⟩
+  clear I J hwf
+  cases h
+  case popClaim ctx i k0 nr cl hpc hq hi hcell hfull =>
+    have hit := (isTask_iff cl.item).mp (l4 k0 i cl hcell)
+    clear J0
+    cases ctx <;> (try obtain ⟨idx, hidx⟩ := hit) <;> (try rw [hidx]) <;> q_close
+  all_goals (clear J0; try q_close)
 
 set_option maxHeartbeats 2000000 in
 theorem Inv2.step_g3 (I : Inv1 c s) (J : Inv2 c s) (h : StepCase c s t lb s') :
-    ∀ (t' p : Nat) (k : Pc), s'.pc t' = .gPub p k → ∃ x, s'.g.cells[p]? = some ⟨x, .reserved⟩ := by
+    ∀ (t' p : Nat) (k : Pc), s'.pc t' = .gPub p k → s'.g.stAt p = some .reserved := by
   intro t' p k hp
   have g3 := J.g3
   have g3u := J.g3u
   have g2 := J.g2
-  clear I J
-  cases h <;> try q_close
-  all_goals (trace_state; sorry)
+  have l4 := J.l4
+  have hwf := I.wf t
+  have J0 := J
+  have hd := plain_dispatchPc
+  have hoe := plain_onEmpty
+  have hmc := plain_markChain c
+  have has := plain_afterStore c
+  have hae1 := afterEmpty_dispatchPc
+  have hae2 := afterEmpty_onEmpty
+  have hae3 := afterEmpty_markChain c
+  have hae4 := afterEmpty_afterStore c
+  have hk : ∀ p k, s.pc t = .gPub p k → k.plain ∧ k.afterEmpty = false := by
+    intro p k hp; rw [hp] at hwf; exact ⟨plain_cont c none k hwf, afterEmpty_cont c none k hwf⟩
+  clear I J hwf
+  cases h
+  case popClaim ctx i k0 nr cl hpc hq hi hcell hfull =>
+    have hit := (isTask_iff cl.item).mp (l4 k0 i cl hcell)
+    clear J0
+    cases ctx <;> (try obtain ⟨idx, hidx⟩ := hit) <;> (try rw [hidx]) <;> q_close
+  all_goals (clear J0; try q_close)
 
 set_option maxHeartbeats 2000000 in
 theorem Inv2.step_g3u (I : Inv1 c s) (J : Inv2 c s) (h : StepCase c s t lb s') :
@@ -163,21 +445,136 @@ theorem Inv2.step_g3u (I : Inv1 c s) (J : Inv2 c s) (h : StepCase c s t lb s') :
   intro t1 t2 p k k' h1 h2
   have g3 := J.g3
   have g3u := J.g3u
-  clear I J
-  cases h <;> try q_close
-  all_goals (trace_state; sorry)
+  have l4 := J.l4
+  have hwf := I.wf t
+  have J0 := J
+  have hd := plain_dispatchPc
+  have hoe := plain_onEmpty
+  have hmc := plain_markChain c
+  have has := plain_afterStore c
+  have hae1 := afterEmpty_dispatchPc
+  have hae2 := afterEmpty_onEmpty
+  have hae3 := afterEmpty_markChain c
+  have hae4 := afterEmpty_afterStore c
+  have hk : ∀ p k, s.pc t = .gPub p k → k.plain ∧ k.afterEmpty = false := by
+    intro p k hp; rw [hp] at hwf; exact ⟨plain_cont c none k hwf, afterEmpty_cont c none k hwf⟩
+  clear I J hwf
+  cases h
+  case popClaim ctx i k0 nr cl hpc hq hi hcell hfull =>
+    have hit := (isTask_iff cl.item).mp (l4 k0 i cl hcell)
+    clear J0
+    cases ctx <;> (try obtain ⟨idx, hidx⟩ := hit) <;> (try rw [hidx]) <;> q_close
+  all_goals (clear J0; try q_close)
 
-set_option maxHeartbeats 2000000 in
-theorem Inv2.step_g4 (I : Inv1 c s) (J : Inv2 c s) (h : StepCase c s t lb s') :
-    ∀ (p : Nat) (cl : Cell), s'.g.cells[p]? = some cl → cl.st = .reserved → ∃ t' k, s'.pc t' = .gPub p k := by
-  intro p cl hc hres
-  have g3 := J.g3
-  have g3u := J.g3u
-  have g4 := J.g4
+theorem stAt_take_free (q : Q) (x : Item) (i : Nat) (h : q.stAt i = some .free) : (q.take x).stAt i = some .free := by
+  simp only [Q.stAt, Q.take] at h ⊢
+  cases hc : q.cells[i]? with
+  | none => simp [hc] at h
+  | some cl =>
+    have hlt : i < q.cells.length := by
+      rcases List.getElem?_eq_some_iff.mp hc with ⟨hl, _⟩; exact hl
+    rw [List.getElem?_append_left hlt, hc]; simpa [hc] using h
+
+theorem stAt_setSt_other (q : Q) (p i : Nat) (st : CellSt) (hne : i ≠ p) : (q.setSt p st).stAt i = q.stAt i := by
+  simp only [Q.stAt, Q.setSt]
+  split
+  · simp [List.getElem?_set, hne.symm]
+  · rfl
+
+theorem stAt_setSt_same (q : Q) (p : Nat) (st : CellSt) (cl : Cell) (h : q.cells[p]? = some cl) :
+    (q.setSt p st).stAt p = some st := by
+  have hlt : p < q.cells.length := by
+    rcases List.getElem?_eq_some_iff.mp h with ⟨hl, _⟩; exact hl
+  simp [Q.stAt, Q.setSt, h, List.getElem?_set, hlt]
+
+set_option maxHeartbeats 1000000 in
+theorem Inv2.step_g1 (J : Inv2 c s) (h : StepCase c s t lb s') :
+    ∀ i : Nat, i < s'.g.popIdx → s'.g.stAt i = some .free ∨ ∃ w, s'.pc w = .wGWait i := by
+  intro i hi
+  have g1 := J.g1
   have g2 := J.g2
-  clear I J
-  cases h <;> try q_close
-  all_goals (trace_state; sorry)
+  cases h
+  case wGPop k hpc =>
+    simp only [exec_proj] at hi ⊢
+    by_cases hi' : i = s.g.popIdx
+    · right; exact ⟨t, by simp [hi']⟩
+    · have hlt : i < s.g.popIdx := by omega
+      rcases g1 i hlt with h1 | ⟨w, hw⟩
+      · left; simpa [Q.stAt] using h1
+      · right
+        have hwt : w ≠ t := by intro e; subst e; rw [hpc] at hw; cases hw
+        exact ⟨w, by simp [upd_apply, hwt, hw]⟩
+  case wRecv i0 cl hpc hcell hfull =>
+    simp only [exec_proj] at hi ⊢
+    have hpop : (s.g.setSt i0 .free).popIdx = s.g.popIdx := by simp only [Q.setSt]; split <;> rfl
+    rw [hpop] at hi
+    by_cases hi' : i = i0
+    · left; rw [hi']; exact stAt_setSt_same _ _ _ _ hcell
+    · rcases g1 i hi with h1 | ⟨w, hw⟩
+      · left; rw [stAt_setSt_other _ _ _ _ hi']; exact h1
+      · right
+        have hwt : w ≠ t := by intro e; subst e; rw [hpc] at hw; cases hw; exact hi' rfl
+        exact ⟨w, by simp [upd_apply, hwt, hw]⟩
+  case gPublish p k hpc hfree hst =>
+    simp only [exec_proj] at hi ⊢
+    have hpop : (s.g.setSt p .full).popIdx = s.g.popIdx := by simp only [Q.setSt]; split <;> rfl
+    rw [hpop] at hi
+    rcases g1 i hi with h1 | ⟨w, hw⟩
+    · left
+      have : i ≠ p := by intro e; subst e; rw [hst] at h1; cases h1
+      rw [stAt_setSt_other _ _ _ _ this]; exact h1
+    · right
+      have hwt : w ≠ t := by intro e; subst e; rw [hpc] at hw; cases hw
+      exact ⟨w, by simp [upd_apply, hwt, hw]⟩
+  case gTakeTask id k hpc =>
+    simp only [exec_proj] at hi ⊢
+    rcases g1 i (by simpa [Q.take] using hi) with h1 | ⟨w, hw⟩
+    · left; exact stAt_take_free _ _ _ h1
+    · right
+      have hwt : w ≠ t := by intro e; subst e; rw [hpc] at hw; cases hw
+      exact ⟨w, by simp [upd_apply, hwt, hw]⟩
+  case gTakeStop k hpc =>
+    simp only [exec_proj] at hi ⊢
+    rcases g1 i (by simpa [Q.take] using hi) with h1 | ⟨w, hw⟩
+    · left; exact stAt_take_free _ _ _ h1
+    · right
+      have hwt : w ≠ t := by intro e; subst e; rw [hpc] at hw; cases hw
+      exact ⟨w, by simp [upd_apply, hwt, hw]⟩
+  case gTakeWakeup k hpc =>
+    simp only [exec_proj] at hi ⊢
+    rcases g1 i (by simpa [Q.take] using hi) with h1 | ⟨w, hw⟩
+    · left; exact stAt_take_free _ _ _ h1
+    · right
+      have hwt : w ≠ t := by intro e; subst e; rw [hpc] at hw; cases hw
+      exact ⟨w, by simp [upd_apply, hwt, hw]⟩
+  case bLdRun hpc =>
+    simp only [exec_proj] at hi ⊢
+    rcases g1 i hi with h1 | ⟨w, hw⟩
+    · exact Or.inl h1
+    · right
+      have hwt : w ≠ t := by intro e; subst e; rcases hpc with hpc | ⟨k, hpc⟩ <;> (rw [hpc] at hw; cases hw)
+      exact ⟨w, by simp [upd_apply, hwt, hw]⟩
+  all_goals
+    ((try simp only [exec_proj] at hi ⊢)
+     rcases g1 i hi with h1 | ⟨w, hw⟩
+     · exact Or.inl h1
+     · right
+       have hwt : w ≠ t := by intro e; subst e; simp_all
+       exact ⟨w, by simp [upd_apply, hwt, hw]⟩)
+
+theorem Inv2.step (I : Inv1 c s) (J : Inv2 c s) (h : StepCase c s t lb s') : Inv2 c s' :=
+  ⟨J.step_l0 I h, J.step_l1 I h, J.step_l2 I h, J.step_l3 I h, J.step_l4 I h, J.step_l5 I h, J.step_l6 I h,
+   J.step_l7 I h, J.step_l8 I h, J.step_g0 I h, J.step_g1 h, J.step_g2 I h, J.step_g3 I h, J.step_g3u I h⟩
 
 end
+
+/-- `Inv1` and `Inv2` hold in every reachable state -/
+theorem Inv12.reachable (c : Cfg) (hc : c.WF) (s : State) (h : Reachable (· = State.init c) (Step c) s) :
+    Inv1 c s ∧ Inv2 c s := by
+  refine Reachable.invariant (fun s => Inv1 c s ∧ Inv2 c s) ?_ ?_ s h
+  · intro s hs; subst hs; exact ⟨Inv1.init c hc, Inv2.init c⟩
+  · intro s s' hI hstep
+    obtain ⟨t, lb, hst⟩ := hstep
+    exact ⟨hI.1.step (step_cases hst), hI.2.step hI.1 (step_cases hst)⟩
+
 end Babylon.Exec
